@@ -92,6 +92,29 @@ CHECKS = {
             "Quick skips depth-3 histories without any edit. Hidden state reachable only through operations outside the alphabet is not "
             "explored.",
             "3 C18"),
+    "C10": ("exploration", "bex", "bounded exhaustive enumeration of spectra x scale factors x relabelling angles, metamorphic relations and bounds",
+            "Every non-degenerate assignment of a 3-value alphabet on 2x2..3x3/2x4 grids and complete structured/bump families on 4x6 and "
+            "5x8 (both tail regimes) x k in {1e-6..1e6} x 8 relabelling angles x ~30 statistics: heights x sqrt(k), drift/slope x k, all "
+            "other parameters unchanged, directions shift by a mod 360, physical bounds; scale_by_hs with 3 expressions x 10 window "
+            "configurations whose thresholds sit exactly on batch values.",
+            "Peak statistics are compared only where rounding cannot change the selected peak; library thresholds (sw mask, swe floor, gamma "
+            "clip) are excluded. Known finding: gw is energy-dependent / NaN above ~4.3 m.",
+            "3 C10"),
+    "C14": ("exploration", "bex", "exhaustive enumeration of station subsets x query menus x tolerances x conventions vs a reference geometry",
+            "Every subset of 1-4 stations of a lattice around both meridians (each station carrying a one-hot spectrum), written in both "
+            "longitude conventions, x query point/pair menus in both conventions x tolerances x max_sites x options (unique/exact/"
+            "missing) x call modes, for nearest, idw and bbox; an independent reference geometry with the short-way longitude difference "
+            "decides membership, weights, failures and the reported convention.",
+            "Planar degree metric as in the library; ties and exact box edges are don't-care; max_sites=1 with several stations in range "
+            "accepts either reading.",
+            "3 C14"),
+    "C17": ("exploration", "hist", "exhaustive enumeration of operations and ordered operation pairs x input variants with deep before/after snapshots",
+            "The operation alphabet is built by introspection (98 operations: every public SpecArray/SpecDataset/Partition method with "
+            "argument menus, selections, writers, construct helpers, free functions); every operation alone on numpy-backed, view-into-"
+            "caller-buffer, read-only and dask-backed inputs, and every ordered pair on the same objects; a deep bitwise snapshot of the "
+            "dataset, wind/depth arrays, coordinate arrays, owning buffers, query lists and keyword dicts must be unchanged.",
+            "plot, to_orcaflex and to_zarr are skipped; from_<model> readers are covered by C12's native-unmodified clause.",
+            "3 C17"),
 }
 
 PENDING = {
